@@ -106,6 +106,7 @@ def gen_world(rng: random.Random):
             w.update({"nrows": rng.randint(1, 12), "ncols": rng.randint(2, 12), "nch": rng.randint(2, 4),
                       "nmodes": rng.randint(1, 4), "p_nan": rng.choice([0.0, 0.2, 0.5, 0.8]),
                       "dups": rng.random() < 0.4, "empty_cols": rng.random() < 0.3,
+                      "stable_mode": rng.random() < 0.25,
                       "cov": variant == "SSI" and rng.random() < 0.25})
             w["ordmin"] = rng.choice([0, 0, 0, 1, 2, w["ncols"] // 2])
     r = rng.random()
@@ -147,6 +148,16 @@ def gen_table(w):
             r1 = rng.integers(nr)
             c1 = c0 if rng.random() < 0.5 else rng.integers(nc)
             Fn[r1, c1] = Fn[r0, c0]
+    if w.get("stable_mode") and np.isfinite(Fn).any():
+        # a perfectly stable pole: the bit-identical frequency at most model orders (legal, and what a noise-free
+        # or strongly dominant mode gives) - equal frequencies then belong to different orders
+        fin = Fn[np.isfinite(Fn)]
+        fstar = fin[rng.integers(len(fin))]
+        for c in range(nc):
+            if rng.random() < 0.8:
+                col = Fn[:, c]
+                r_ = int(np.nanargmin(np.abs(col - fstar))) if np.isfinite(col).any() else int(rng.integers(nr))
+                Fn[r_, c] = fstar
     if w["empty_cols"]:
         Fn[:, rng.integers(nc)] = np.nan
     nanm = np.isnan(Fn)
@@ -398,6 +409,15 @@ class Driver:
             if sel:
                 f = rng.choice(sel)[0]
                 return {"x": float(f + rng.gauss(0, 0.01) * (x1 - x0)), "y": float(rng.uniform(y0, y1))}
+        if m.variant != "FDD" and not near_selected and rng.random() < 0.12:
+            # the frequency of an entry that is already selected, at ANOTHER order that holds the very same value
+            sel = [p for p in sorted(m.cands)[0]] if m.cands else []
+            if sel:
+                f, o = rng.choice(sel)
+                others = [c for c in range(m.Fn.shape[1]) if c != o and (m.Fn[:, c] == f).any()]
+                if others:
+                    self.inc("probe.pick_equal_frequency_at_other_order")
+                    return {"x": float(f), "y": float(rng.choice(others)), "snap": True}
         if r < 0.10:
             # outside the axes: pixel coordinates beyond the bounding box
             bb = ax.bbox
